@@ -52,9 +52,20 @@ type TreeScript struct {
 	Ver     int64   `json:"ver"`
 	Faults  []Fault `json:"faults,omitempty"`
 	Ops     []Op    `json:"ops"`
+	// C16: tasks and schedule
+	Tasks     [][]Op `json:"tasks,omitempty"`
+	Schedule  []int  `json:"schedule,omitempty"`
+	Strategy  string `json:"strategy,omitempty"`
+	SchedSeed uint64 `json:"sched_seed,omitempty"`
 }
 
-func (s *TreeScript) Len() int { return len(s.Ops) + len(s.Faults) }
+func (s *TreeScript) Len() int {
+	n := len(s.Ops) + len(s.Faults)
+	for _, t := range s.Tasks {
+		n += len(t)
+	}
+	return n + len(s.Schedule)
+}
 func (s *TreeScript) Without(drop []int) sim.Script {
 	d := map[int]bool{}
 	for _, i := range drop {
@@ -73,11 +84,37 @@ func (s *TreeScript) Without(drop []int) sim.Script {
 			c.Faults = append(c.Faults, f)
 		}
 	}
+	idx := len(s.Ops) + len(s.Faults)
+	c.Tasks, c.Schedule = nil, nil
+	for _, t := range s.Tasks {
+		var nt []Op
+		for _, o := range t {
+			if !d[idx] {
+				nt = append(nt, o)
+			}
+			idx++
+		}
+		c.Tasks = append(c.Tasks, nt)
+	}
+	for _, x := range s.Schedule {
+		if !d[idx] {
+			c.Schedule = append(c.Schedule, x)
+		}
+		idx++
+	}
 	return &c
 }
 
 func (s *TreeScript) Simpler() []sim.Script {
 	var out []sim.Script
+	for i := 1; i < len(s.Schedule) && len(out) < 60; i++ {
+		if s.Schedule[i] != s.Schedule[i-1] {
+			c := *s
+			c.Schedule = append([]int{}, s.Schedule...)
+			c.Schedule[i] = c.Schedule[i-1]
+			out = append(out, &c)
+		}
+	}
 	mod := func(f func(c *TreeScript)) {
 		c := *s
 		c.Ops = append([]Op{}, s.Ops...)
@@ -192,6 +229,12 @@ type world struct {
 }
 
 var worldSeq int
+
+func newDisk(path string) *grocksdb.Disk {
+	d := grocksdb.NewDisk()
+	grocksdb.SimSetDisk(path, d)
+	return d
+}
 
 func val(b []byte) *util.SecureSerializableValue { return &util.SecureSerializableValue{Buffer: b} }
 
